@@ -6,7 +6,8 @@ Fail-closed: every function is matched against the declarative shape written bel
 else raises TranslateError (the caller then falls back to coq/gen_default/Roundtrip_gen.v and
 the differential correspondence decides).  What is extracted are exactly the constants and
 structural facts the theorems of Props/C15.v are stated over:
-  gen_enc   sorted keys?  json.dumps on key / value?  the separator bytes, the empty-map literal
+  gen_enc   sorted keys?  json.dumps on key / value?  the separator bytes, the empty-map literal;
+            gen_args_text_whole: the WHOLE key and value text is hashed (no slice)
   gen_keys  the separators of CallId.key / TaskId.key and the from-the-right split
   gen_bind  apply_defaults() present?
   gen_cds   comparison operators of _maybe_store, reference prefix/separator, pass-through of
@@ -115,10 +116,17 @@ def parse_compute_args_id(src: str) -> dict:
         return (isinstance(n, ast.Subscript) and isinstance(n.value, ast.Name) and n.value.id == "serialized_args"
                 and is_k(n.slice))
 
+    sliced: set = set()
+
     def classify(n, env):
-        """-> ('key'|'val', quoted)"""
+        """-> ('key'|'val', quoted); a slice of the key / value text (x[:N], x[a:b]) is recorded in `sliced`:
+        only part of the text reaches the hash (structural fact gen_args_text_whole)"""
         if isinstance(n, ast.Name) and n.id in env:
             return env[n.id]
+        if isinstance(n, ast.Subscript) and isinstance(n.slice, ast.Slice):
+            what, quoted = classify(n.value, env)
+            sliced.add(what)
+            return (what, quoted)
         if is_k(n):
             return ("key", False)
         if is_v(n):
@@ -172,7 +180,8 @@ def parse_compute_args_id(src: str) -> dict:
                 and _is_attr_chain(r.value.func, f"{hname}.hexdigest")):
             _fail("compute_args_id: return value not recognised")
     return {"sort_keys": sort_keys, "quote_key": quote_key, "quote_val": quote_val, "kv_sep": kv_sep.decode("latin1"),
-            "item_sep": item_sep.decode("latin1"), "empty_id": empty_id, "args_hash_full": bool(full)}
+            "item_sep": item_sep.decode("latin1"), "empty_id": empty_id, "args_hash_full": bool(full),
+            "args_text_whole": not sliced}
 
 
 # ------------------------------------------------------------------ identifiers
@@ -677,6 +686,7 @@ def emit(f: dict) -> str:
         f"  {{| sort_keys := {_b(e['sort_keys'])}; quote_key := {_b(e['quote_key'])}; quote_val := {_b(e['quote_val'])};",
         f"     kv_sep := {coq_str(e['kv_sep'])}; item_sep := {coq_str(e['item_sep'])}; empty_id := {coq_str(e['empty_id'])} |}}.",
         f"Definition gen_args_hash_full : bool := {_b(e['args_hash_full'])}.",
+        f"Definition gen_args_text_whole : bool := {_b(e['args_text_whole'])}.",
         "",
         "Definition gen_keys : key_cfg :=",
         f"  {{| call_sep := {ord(k['call_sep'])}; task_sep := {ord(k['task_sep'])}; task_rejects_empty := {_b(k['task_rejects_empty'])} |}}.",
